@@ -21,6 +21,7 @@ import (
 	"encoding/json"
 	"flag"
 	"fmt"
+	"hash/fnv"
 	"math/rand"
 	"mime/multipart"
 	"os"
@@ -749,8 +750,9 @@ func (w *worker) auxMergeV2(cs *Case, c *Concrete, pds []*wmodel.ProfileData, or
 	}
 }
 
-func (w *worker) runCase(ci int, cs *Case, seed int64, permmax int, allPermsUpTo int) {
-	rng := rand.New(rand.NewSource(seed*1000003 + int64(ci)*7919 + 17))
+func (w *worker) runCase(ci int, lineHash uint64, cs *Case, seed int64, permmax int, allPermsUpTo int) {
+	// seeded by the CONTENT of the case: the same case gets the same concretisation wherever it stands in the file
+	rng := rand.New(rand.NewSource(seed*1000003 + int64(lineHash>>1)))
 	atoms := atomsOf(cs)
 	c := concretise(rng, atoms, cs.K)
 	for _, a := range atoms {
@@ -1224,7 +1226,9 @@ func main() {
 					fmt.Fprintln(os.Stderr, "bad case: k", j.ci)
 					os.Exit(2)
 				}
-				w.runCase(j.ci, &cs, *seed, *permmax, *allperms)
+				h := fnv.New64a()
+				h.Write(j.line)
+				w.runCase(j.ci, h.Sum64(), &cs, *seed, *permmax, *allperms)
 			}
 		}(workers[i])
 	}
